@@ -54,10 +54,12 @@ def r111(ctx):
     # position of the *end* classification in the tuple returned by Path.check_interfaces
     ci = tree.func("infretis/classes/path.py", "Path.check_interfaces")
     end_idx = None
+    cifl = flow_of(ci)
     for rr in [n for n in walk_local(ci) if isinstance(n, ast.Return) and isinstance(n.value, ast.Tuple)]:
-        names = [ast.unparse(x) for x in rr.value.elts]
-        if "end" in names:
-            end_idx = names.index("end")
+        for i_, x in enumerate(rr.value.elts):
+            for kind, node, at_, extra in cifl.sources(x, cifl.cfg.node_of(rr)):
+                if kind == "expr" and isinstance(node, ast.Call) and last_name(node) == "get_end_point":
+                    end_idx = i_
     if end_idx is None:
         raise AnalysisError("R-11.1: Path.check_interfaces does not return a tuple containing `end`")
     early = None
@@ -103,7 +105,8 @@ def r111(ctx):
             ctx.ok(rid, early, f"the '0-L' rejection is reached without passing any of the {len(sinks)} engine calls")
         # the rejected move returns the old paths untouched
         v = early.value.elts[1]
-        if isinstance(v, ast.List) and [ast.unparse(x) for x in v.elts] == ["path_old0", "path_old1"]:
+        fl_ = flow_of(f)
+        if isinstance(v, ast.List) and [_old_role(fl_, x, rn) for x in v.elts] == ["old0", "old1"]:
             ctx.ok(rid, early, "the early rejection returns the two old paths")
         else:
             ctx.bad(rid, early, "the early rejection does not return the two old paths")
@@ -111,13 +114,25 @@ def r111(ctx):
     cc = tree.func(SETUP, "check_config")
     ccfg = cfg_of(cc)
     found = False
+    from .shared import _cfg_chain, _cfg_env
+    cenv = _cfg_env(cc)
+
+    def cfg_key(e):
+        """last configuration key a (local) expression stands for"""
+        c = _cfg_chain(e, cenv)
+        if c:
+            return c[-1]
+        return None
+
     for r in [n for n in walk_local(cc) if isinstance(n, ast.Raise)]:
         par = getattr(r, "_parent", None)
         if isinstance(par, ast.If):
             t = ast.unparse(par.test)
-            if "quantis" in t and "lambda_minus_one" in t and isinstance(par.test, ast.BoolOp) and isinstance(par.test.op, ast.And):
+            keys_in_test = {cfg_key(x) for x in ast.walk(par.test) if isinstance(x, (ast.Name, ast.Subscript, ast.Call))}
+            if {"quantis", "lambda_minus_one"} <= keys_in_test and isinstance(par.test, ast.BoolOp) and isinstance(par.test.op, ast.And):
                 found = True
-                if "lambda_minus_one is not False" in t:
+                by_identity = any(isinstance(x, ast.Compare) and len(x.ops) == 1 and isinstance(x.ops[0], ast.IsNot) and isinstance(x.comparators[0], ast.Constant) and x.comparators[0].value is False and cfg_key(x.left) == "lambda_minus_one" for x in ast.walk(par.test))
+                if by_identity:
                     ctx.ok(rid, r, "check_config rejects quantis together with any set lambda_minus_one (quantis_swap_zero has no '0-L' branch)")
                 else:
                     ctx.bad(rid, r, "check_config excludes quantis + lambda_minus_one by truthiness: lambda_minus_one = 0.0 is accepted although quantis_swap_zero has no '0-L' rejection",
@@ -186,7 +201,8 @@ def _frame_roles(f):
                         if u.func.attr == "propagate":
                             rev = kwarg(u, "reverse", 3)
                             revv = isinstance(rev, ast.Constant) and rev.value is True
-                            eng = ast.unparse(u.func.value)
+                            lv = _engine_level(fl, u.func.value, cfg.node_of(u))
+                            eng = {-1: "engine0", 0: "engine1"}.get(lv, ast.unparse(u.func.value))  # resolved level of theory, not the local's name
                             dest = ast.unparse(u.args[0]) if u.args else "?"
                             out.append((role, idx, "start", f"{eng} reverse={revv} into {dest}", u, copied))
                             used = True
@@ -321,7 +337,7 @@ def r114(ctx):
                         out |= energy_levels(d.value, d.at, depth + 1, seen)
         return out
 
-    pacc = [d for d in fl.defs if d.path == "pacc" and d.kind == "assign"]
+    pacc = [d for d in fl.defs if d.kind == "assign" and isinstance(getattr(d, "value", None), ast.Call) and last_name(d.value) in ("min", "max", "exp") and any(isinstance(x, ast.Call) and last_name(x) == "exp" for x in ast.walk(d.value))]
     if not pacc:
         raise AnalysisError("R-11.4: acceptance probability `pacc` not found in quantis_swap_zero")
     n = 0
@@ -515,10 +531,11 @@ def r116(ctx):
     f = ctx.tree.func(TIS, "quantis_swap_zero")
     fl = flow_of(f)
     cfg = fl.cfg
-    pdefs = [st for st in walk_local(f) if isinstance(st, ast.Assign) and isinstance(st.targets[0], ast.Name) and st.targets[0].id == "pacc"]
+    pdefs = [st for st in walk_local(f) if isinstance(st, ast.Assign) and isinstance(st.targets[0], ast.Name) and isinstance(st.value, ast.Call) and last_name(st.value) in ("min", "max", "exp") and any(isinstance(x, ast.Call) and last_name(x) == "exp" for x in ast.walk(st.value))]
     if len(pdefs) != 1:
         raise AnalysisError("R-11.6: exactly one definition of pacc expected in quantis_swap_zero")
     st = pdefs[0]
+    pname = st.targets[0].id
     v = st.value
     okshape = False
     why = "not min(1, exp(...))"
@@ -545,20 +562,24 @@ def r116(ctx):
     for r in rets:
         g = cfg.guards(cfg.node_of(r))
         for e, t, bn in g:
-            if isinstance(e, ast.Compare) and "pacc" in ast.unparse(e):
+            if isinstance(e, ast.Compare) and pname in [x.id for x in ast.walk(e) if isinstance(x, ast.Name)]:
                 qea = (r, e, t)
     if qea is None:
         ctx.bad(rid, st, "no rejection of quantis_swap_zero depends on a comparison with pacc: the energy rule is not applied", construct="pacc unused for rejection")
     else:
         r, e, t = qea
-        txt = ast.unparse(e).replace(" ", "")
-        accept_when_true = txt in ("rand<=pacc", "pacc>=rand")
-        reject_when_true = txt in ("rand>pacc", "pacc<rand")
+        # normalise to <draw> OP <pacc>
+        op_ = e.ops[0]
+        l_is_p = isinstance(e.left, ast.Name) and e.left.id == pname
+        if l_is_p:
+            op_ = {ast.Lt: ast.Gt, ast.LtE: ast.GtE, ast.Gt: ast.Lt, ast.GtE: ast.LtE}.get(type(op_), type(op_))()
+        accept_when_true = isinstance(op_, ast.LtE)
+        reject_when_true = isinstance(op_, ast.Gt)
         if (accept_when_true and t is False) or (reject_when_true and t is True):
             ctx.ok(rid, e, "rejected exactly when the drawn number exceeds pacc (accepted when it is at most pacc)")
         else:
             ctx.bad(rid, e, f"the zero swap is rejected on the {'true' if t else 'false'} side of `{short(e, 30)}`: not 'accept exactly when the drawn number is at most pacc'", construct="acceptance test " + short(e, 30))
-        rn = [x for x in ast.walk(e) if isinstance(x, ast.Name) and x.id != "pacc"]
+        rn = [x for x in ast.walk(e) if isinstance(x, ast.Name) and x.id != pname]
         okd = False
         for x in rn:
             for kind, node, at, extra in fl.sources(x, cfg.node_of(r)):
